@@ -36,7 +36,9 @@ COMPONENTS = {
 }
 ASSUMPTIONS = ["null inputs/outputs need no representation", "array values are checked for the presence of their entity, not element by element",
                "runs that fail are not exported (the statement speaks of completed runs)"]
-TIERS = {"quick": {"runs": 200, "budget_s": 75, "chunk": 3}, "thorough": {"runs": 20000, "budget_s": 900, "chunk": 8}}
+# grammar 2 = grammar 1 + tool-level defaults, valueFrom reading another input, arrays of optional ints; runs without the
+# parameter (replay files recorded before it existed) use grammar 1, whose tape layout is unchanged
+TIERS = {"quick": {"runs": 200, "budget_s": 75, "chunk": 3, "params": {"grammar": 2}}, "thorough": {"runs": 20000, "budget_s": 900, "chunk": 8, "params": {"grammar": 2}}}
 SIM_KW = {"max_steps": 3_000_000, "wall_cap": 120.0, "max_vtime": 1e7}
 
 
@@ -124,7 +126,7 @@ def run(sim, params):
     t = sim.tape
     docdir = os.path.join(sim.scratch, "doc")
     os.makedirs(docdir, exist_ok=True)
-    gen = cwlgen.generate(t, docdir, max_steps=params.get("max_steps", 5))
+    gen = cwlgen.generate(t, docdir, max_steps=params.get("max_steps", 5), grammar=params.get("grammar", 1))
     state = {}
 
     async def main():
